@@ -220,6 +220,18 @@ theorem leftQuot_eq_resid {A : Automaton} (h : wfAut A = true) {u : List Nat} (h
       · exact hw c h'
     exact ⟨hw, by rw [accepts_eq h huw, runD_append, hf]⟩
 
+/-- reachability stated through `runD` gives `AllReachable` -/
+theorem allReachable_of_runD {A : Automaton} (h : wfAut A = true)
+    (hr : ∀ s, s < A.states.length → ∃ u, WFs u ∧ runD A A.initialState u = s) :
+    AllReachable A := by
+  intro s hs
+  obtain ⟨u, hu, hrun⟩ := hr s hs
+  have hi := (wfAut_spec h).2.1
+  obtain ⟨_, t, ht, hn⟩ := strNext_eq h hu (List.getElem?_eq_getElem hi)
+  refine ⟨u, A.states[A.initialState], t, hu, ?_, hn, ?_⟩
+  · simp [Automaton.initial, List.getElem?_eq_getElem hi]
+  · rw [wf_id h ht, hrun]
+
 /-! ### representatives of the character classes -/
 
 /-- `next` depends on the character only through its class in the state's own partition -/
@@ -383,5 +395,73 @@ theorem hom_run {A A' : Automaton} (hA : wfAut A = true) (hA' : wfAut A' = true)
     rw [f1 s hs, f2 t ht] at this
     rw [runD_cons, runD_cons]
     exact ih (fun c' hc' => hw c' (by simp [hc'])) (stepD_lt hA hs hcm) this
+
+/-! ### the Moore partition is the Nerode equivalence of the states -/
+
+theorem moore_length {A : Automaton} (h : wfAut A = true) :
+    (moore A).length = A.states.length :=
+  mooreAbs_length (covers_closed h (alphabet_covers h).1)
+
+theorem getD_eq_iff {l : List Nat} {s t : Nat} (hs : s < l.length) (ht : t < l.length) :
+    l.getD s 0 = l.getD t 0 ↔ l[s]? = l[t]? := by
+  simp [List.getD_eq_getElem?_getD, List.getElem?_eq_getElem hs, List.getElem?_eq_getElem ht]
+
+/-- two states in the same block of `moore A` have the same residual language -/
+theorem moore_sound {A : Automaton} (h : wfAut A = true) {s t : Nat}
+    (hs : s < A.states.length) (ht : t < A.states.length)
+    (hb : (moore A)[s]? = (moore A)[t]?) : resid A s = resid A t := by
+  have hcl := covers_closed h (alphabet_covers h).1
+  have hlen := moore_length h
+  have hb' := (getD_eq_iff (by omega) (by omega)).2 hb
+  ext w
+  rw [resid_iff h hs, resid_iff h ht]
+  constructor <;> rintro ⟨hw, hf⟩ <;> refine ⟨hw, ?_⟩ <;>
+    obtain ⟨w', hm, e⟩ := normalize h (alphabet_covers h) hw <;>
+    have key := mooreAbs_sound (fin := finD A) hcl hs ht hb' w' hm <;>
+    have e1 := e s hs <;> have e2 := e t ht <;>
+    simp only [runD] at e1 e2 hf ⊢
+  · rw [← e2, ← key, e1]; exact hf
+  · rw [← e1, key, e2]; exact hf
+
+/-- two states in different blocks are distinguished by a well-formed string -/
+theorem moore_complete {A : Automaton} (h : wfAut A = true) {s t : Nat}
+    (hs : s < A.states.length) (ht : t < A.states.length)
+    (hb : (moore A)[s]? ≠ (moore A)[t]?) :
+    ∃ w, WFs w ∧ ¬ (w ∈ resid A s ↔ w ∈ resid A t) := by
+  have hcov := alphabet_covers h
+  have hcl := covers_closed h hcov.1
+  have hlen := moore_length h
+  have hb' : (moore A).getD s 0 ≠ (moore A).getD t 0 :=
+    fun e => hb ((getD_eq_iff (by omega) (by omega)).1 e)
+  obtain ⟨w, hm, hd⟩ := mooreAbs_complete (fin := finD A) hcl hs ht hb'
+  have hw : WFs w := wfs_of_alphabet hcov.1 hm
+  refine ⟨w, hw, ?_⟩
+  rw [resid_iff h hs, resid_iff h ht]
+  simp only [runD, hw, true_and]
+  intro hiff
+  apply hd
+  cases h1 : finD A (run (stepD A) s w) <;> cases h2 : finD A (run (stepD A) t w) <;>
+    simp [h1, h2] at hiff ⊢
+
+/-- same block ⇔ same residual language -/
+theorem moore_block_iff {A : Automaton} (h : wfAut A = true) {s t : Nat}
+    (hs : s < A.states.length) (ht : t < A.states.length) :
+    (moore A)[s]? = (moore A)[t]? ↔ resid A s = resid A t := by
+  constructor
+  · exact moore_sound h hs ht
+  · intro he
+    by_contra hb
+    obtain ⟨w, _, hn⟩ := moore_complete h hs ht hb
+    exact hn (by rw [he])
+
+
+theorem firstOccs_nodup {α : Type} [DecidableEq α] (l : List α) : (firstOccs l).Nodup := by
+  induction l with
+  | nil => simp [firstOccs]
+  | cons x l ih =>
+    simp only [firstOccs, List.nodup_cons, List.mem_filter, decide_eq_true_eq, ne_eq,
+      not_true_eq_false, and_false, not_false_eq_true, true_and]
+    exact ih.filter _
+
 
 end Smt.Minimize
